@@ -689,6 +689,17 @@ def _shrinks(k, sx, val, own, depth=0):
         return _shrinks(k, sx, val[2][0], own, depth + 1)
     if val[0] == "slice" and val[1] == own:
         return "ok", "a slice of itself"
+    if val[0] in ("cat", "add") and depth < 3:
+        # xs[:p] + xs[p+1:] - the list without one position
+        ops = (val[1], val[2]) if val[0] == "cat" else val[1]
+        if len(ops) == 2 and all(x[0] == "slice" and x[1] == own and x[4] == C(None) for x in ops):
+            lo = [x for x in ops if x[2] == C(None)]
+            hi = [x for x in ops if x[3] == C(None)]
+            if len(lo) == 1 and len(hi) == 1 and lo[0][3] != C(None) and hi[0][2] != C(None):
+                from ..symx import mk_add, negate
+                d = simp(mk_add(hi[0][2], negate(lo[0][3])))
+                if is_const(d) and isinstance(d[1], int) and d[1] >= 0:
+                    return "ok", "itself without %d position(s)" % d[1]
     if val[0] == "cat":
         parts = [_shrinks(k, sx, x, own, depth + 1) for x in (val[1], val[2])]
         if any(x in (("list", ()),) for x in (val[1], val[2])):
@@ -707,6 +718,8 @@ def _shrinks(k, sx, val, own, depth=0):
         keeps_target = kf.term == ("e",) or (kf.term[0] == "tup" and len(kf.term[1]) == 2 and kf.term[1][1] == ("t",))
         if s == own and keeps_target:
             return "ok", "target-preserving filter/map of itself (%s)" % kf.text()
+        if keeps_target and isinstance(s, tuple) and s != own and depth < 3 and _shrinks(k, sx, s, own, depth + 1)[0] == "ok":
+            return "ok", "target-preserving map of a sub-list of itself (%s)" % kf.text()
         if s == own:
             return "bad", "entries are rewritten as `%s` (the successor index is not kept)" % show(kf.term)
         if s[0] == "attr" and s[1] == own[1] and s[2] != "next_states":
